@@ -351,20 +351,54 @@ theorem d2_init {W M : Nat} (hp : POk W M) (rb : Bool) :
       Tight, lastAck]) <;>
     first | trivial | omega | rfl | (intro h; cases h)
 
+/-- how far the handshake is: 4 = request not sent, 3 = request travelling, 2 = request accepted,
+1 = response travelling, 0 = both ends established -/
+def hsRank (l : LMon) : Nat :=
+  if l.a.e.s.established then 0
+  else if l.b.e.s.established then (if l.b.e.s.handshakePending then 2 else 1)
+  else if l.a.e.s.handshakePending then 4 else 3
+
+/-- the operation that completes the current step of the handshake -/
+def hsOp : Nat → Op
+  | 4 => .poll .a
+  | 3 => .deliver .b
+  | 2 => .poll .b
+  | _ => .deliver .a
+
+/-- the handshake never goes back, and the operation it waits for advances it -/
+def HsAdv (l l' : LMon) (op : Op) : Prop :=
+  hsRank l' ≤ hsRank l ∧ (op = hsOp (hsRank l) → hsRank l ≠ 0 → hsRank l' < hsRank l)
+
+theorem hsRank_core {l l' : LMon} (c : CoreEq l l') : hsRank l' = hsRank l := by
+  unfold hsRank; rw [c.sa, c.sb]
+
+theorem hsAdv_zero {l l' : LMon} (op : Op) (h : l'.a.e.s.established = true) : HsAdv l l' op := by
+  have h0 : hsRank l' = 0 := by simp [hsRank, h]
+  rw [HsAdv, h0]
+  exact ⟨Nat.zero_le _, fun _ hne => Nat.pos_of_ne_zero hne⟩
+
+theorem hsAdv_one {l l' : LMon} {op : Op} (hr : hsRank l = 1) (ha : l'.a.e.s.established = false)
+    (hb : l'.b.e.s.established = true) (hp : l'.b.e.s.handshakePending = false) (hop : op ≠ .deliver .a) :
+    HsAdv l l' op := by
+  have h1 : hsRank l' = 1 := by simp [hsRank, ha, hb, hp]
+  rw [HsAdv, h1, hr]
+  exact ⟨Nat.le_refl _, fun h => absurd h hop⟩
+
 /-- **the step theorem of the handshake**: from every state of the link reachable from two fresh
-ends no scheduler operation fails (except `send` refusing an empty / over-long message) and the
-phase invariant is preserved -/
-theorem phase_step {ra rb : Bool} {ga gb : Option Nat} {l : LMon} (hl : LInv l) (hp : Phase ra rb ga gb l)
+ends no scheduler operation fails (except `send` refusing an empty / over-long message), the
+phase invariant is preserved, the handshake never goes back and the operation it waits for
+(`hsOp`) advances it -/
+theorem phase_step_adv {ra rb : Bool} {ga gb : Option Nat} {l : LMon} (hl : LInv l) (hp : Phase ra rb ga gb l)
     (op : Op) :
-    (∃ l' o, l.step op = .ok (l', o) ∧ Phase ra rb ga gb l') ∨
+    (∃ l' o, l.step op = .ok (l', o) ∧ Phase ra rb ga gb l' ∧ HsAdv l l' op) ∨
     (l.step op = .error .invalidArgument ∧ ∃ x m, op = .send x m) := by
   -- an idle operation keeps the phase
-  have idle : ∀ (_ : IdleOp l op) (keep : ∀ l', CoreEq l l' → Phase ra rb ga gb l'),
-      (∃ l' o, l.step op = .ok (l', o) ∧ Phase ra rb ga gb l') ∨
+  have idle : ∀ (_ : IdleOp l op) (_ : op ≠ hsOp (hsRank l)) (keep : ∀ l', CoreEq l l' → Phase ra rb ga gb l'),
+      (∃ l' o, l.step op = .ok (l', o) ∧ Phase ra rb ga gb l' ∧ HsAdv l l' op) ∨
       (l.step op = .error .invalidArgument ∧ ∃ x m, op = .send x m) := by
-    intro hi keep
+    intro hi hns keep
     rcases idle_step op hi with ⟨l', o, h1, h2⟩ | h
-    · exact .inl ⟨l', o, h1, keep l' h2⟩
+    · exact .inl ⟨l', o, h1, keep l' h2, by rw [HsAdv, hsRank_core h2]; exact ⟨Nat.le_refl _, fun h => absurd h hns⟩⟩
     · exact .inr h
   cases hp with
   | p0 pre sa sb qab qba bTx =>
@@ -383,8 +417,9 @@ theorem phase_step {ra rb : Bool} {ga gb : Option Nat} {l : LMon} (hl : LInv l) 
         simp only [LMon.step, LMon.get, Mon.step, hout, hlen, if_true]
         simp only [reqBytes, feedSeg_hs]
         rfl
-      refine ⟨_, _, hstep, .p1 ?_ rfl sb (by simp only [qab]; rfl) qba bTx⟩
-      exact ⟨pre.gA, pre.gB, txRep_congr (e := l.a.e) rfl rfl pre.txA, pre.txB, pre.aTx, pre.rsA, pre.rsB, pre.fA, pre.fB⟩
+      refine ⟨_, _, hstep, .p1 ?_ rfl sb (by simp only [qab]; rfl) qba bTx, ?_⟩
+      · exact ⟨pre.gA, pre.gB, txRep_congr (e := l.a.e) rfl rfl pre.txA, pre.txB, pre.aTx, pre.rsA, pre.rsB, pre.fA, pre.fB⟩
+      · simp [HsAdv, hsRank, sa, sb, Session.fresh, initSent]
     · apply idle
       · cases op with
         | send x m => trivial
@@ -395,6 +430,7 @@ theorem phase_step {ra rb : Bool} {ga gb : Option Nat} {l : LMon} (hl : LInv l) 
           · exact absurd rfl hop
           · simp only [IdleOp, LMon.get, sb]; exact quiet_fresh rb
         | deliver x => cases x <;> simp only [IdleOp, LMon.inq, qab, qba]
+      · rw [show hsRank l = 4 by simp [hsRank, sa, sb, Session.fresh]]; exact hop
       · intro l' c
         exact .p0 (pre.core c) (c.sa.trans sa) (c.sb.trans sb) (c.qab.trans qab) (c.qba.trans qba) (c.txB.trans bTx)
   | p1 pre sa sb qab qba bTx =>
@@ -411,8 +447,9 @@ theorem phase_step {ra rb : Bool} {ga gb : Option Nat} {l : LMon} (hl : LInv l) 
         simp only [LMon.step, LMon.inq, qab, LMon.get, Mon.step, hin]
         simp only [reqBytes, ghostRx_hs]
         rfl
-      refine ⟨_, _, hstep, .p2 ?_ sa rfl rfl qba bTx⟩
-      exact ⟨pre.gA, pre.gB, pre.txA, txRep_congr (e := l.b.e) rfl rfl pre.txB, pre.aTx, pre.rsA, rfl, pre.fA, rfl⟩
+      refine ⟨_, _, hstep, .p2 ?_ sa rfl rfl qba bTx, ?_⟩
+      · exact ⟨pre.gA, pre.gB, pre.txA, txRep_congr (e := l.b.e) rfl rfl pre.txB, pre.aTx, pre.rsA, rfl, pre.fA, rfl⟩
+      · simp [HsAdv, hsRank, sa, sb, Session.fresh, initSent, Session.setup]
     · apply idle
       · cases op with
         | send x m => trivial
@@ -426,6 +463,7 @@ theorem phase_step {ra rb : Bool} {ga gb : Option Nat} {l : LMon} (hl : LInv l) 
           cases x
           · simp only [IdleOp, LMon.inq, qba]
           · exact absurd rfl hop
+      · rw [show hsRank l = 3 by simp [hsRank, sa, sb, Session.fresh, initSent]]; exact hop
       · intro l' c
         exact .p1 (pre.core c) (c.sa.trans sa) (c.sb.trans sb) (c.qab.trans qab) (c.qba.trans qba) (c.txB.trans bTx)
   | p2 pre sa sb qab qba bTx =>
@@ -445,7 +483,7 @@ theorem phase_step {ra rb : Bool} {ga gb : Option Nat} {l : LMon} (hl : LInv l) 
         simp only [LMon.step, LMon.get, Mon.step, hout, hlen, if_true]
         simp only [respBytes, feedSeg_hs]
         rfl
-      refine ⟨_, _, hstep, .p3 [] ?_⟩
+      refine ⟨_, _, hstep, .p3 [] ?_, by simp [HsAdv, hsRank, sa, sb, Session.fresh, initSent, Session.setup]⟩
       refine ⟨⟨pre.gA, pre.gB, pre.txA, txRep_congr (e := l.b.e) rfl rfl pre.txB, pre.aTx, pre.rsA, pre.rsB, pre.fA, pre.fB⟩,
         sa, qab, by simp only [qba]; rfl, hpar, ?_, rfl, ?_, ?_, d1_init hpar _, ?_, by simp only [bTx]; rfl⟩
       · show l.b.e.s.established = true
@@ -466,6 +504,7 @@ theorem phase_step {ra rb : Bool} {ga gb : Option Nat} {l : LMon} (hl : LInv l) 
           · simp only [IdleOp, LMon.get, sa]; exact quiet_initSent ra
           · exact absurd rfl hop
         | deliver x => cases x <;> simp only [IdleOp, LMon.inq, qab, qba]
+      · rw [show hsRank l = 2 by simp [hsRank, sa, sb, Session.fresh, initSent, Session.setup]]; exact hop
       · intro l' c
         exact .p2 (pre.core c) (c.sa.trans sa) (c.sb.trans sb) (c.qab.trans qab) (c.qba.trans qba) (c.txB.trans bTx)
   | p3 dq h =>
@@ -474,6 +513,8 @@ theorem phase_step {ra rb : Bool} {ga gb : Option Nat} {l : LMon} (hl : LInv l) 
       have := ackChain_le h.d2.acks
       simp only [List.length_nil] at this; omega
     have hmc0 : l.b.e.s.recv.msgCt = 0 := by have := h.d2.mc; omega
+    have hr1 : hsRank l = 1 := by simp [hsRank, h.sa, h.est, h.pend, initSent, Session.fresh]
+    have hsa0 : l.a.e.s.established = false := by rw [h.sa]; rfl
     by_cases hop1 : op = .poll .b
     · -- the responder's pump: nothing, or a data segment behind the response
       subst hop1
@@ -482,7 +523,8 @@ theorem phase_step {ra rb : Bool} {ga gb : Option Nat} {l : LMon} (hl : LInv l) 
       all_goals simp only [LMon.get] at *
       · have hstep : l.step (.poll .b) = .ok (l.set .b { (l.get .b) with e := (l.get .b).e }, .none) := by
           simp only [LMon.step, Mon.step, LMon.get, h0, List.length_nil, Nat.lt_irrefl, if_false]
-        exact ⟨_, _, hstep, .p3 dq (h.core ⟨rfl, rfl, rfl, rfl, rfl, rfl, rfl, rfl, rfl, rfl, rfl, rfl, id, id⟩)⟩
+        exact ⟨_, _, hstep, .p3 dq (h.core ⟨rfl, rfl, rfl, rfl, rfl, rfl, rfl, rfl, rfl, rfl, rfl, rfl, id, id⟩),
+          hsAdv_one hr1 hsa0 h.est h.pend (by intro h; cases h)⟩
       · rw [h.m] at hok
         have hlen := (segLen_le hok h.par.m244).2
         have hstep : l.step (.poll .b) = .ok ({ l with b := { l.b with e := e', tx := feedSeg l.b.tx (hd.encode ++ p) }, qba := l.qba ++ [hd.encode ++ p] }, .tx (hd.encode ++ p)) := by
@@ -492,7 +534,8 @@ theorem phase_step {ra rb : Bool} {ga gb : Option Nat} {l : LMon} (hl : LInv l) 
         obtain ⟨ht', _, hp'⟩ := endOutgoing_tx hmb.e h.pend h.pre.txB h1
         simp only [hlen, if_true] at ht'
         obtain ⟨f1, f2, f3, f4⟩ := afterTx_frame l.b.e.s l.now
-        refine ⟨_, _, hstep, .p3 (dq ++ [hd.encode ++ p]) ?_⟩
+        refine ⟨_, _, hstep, .p3 (dq ++ [hd.encode ++ p]) ?_,
+          hsAdv_one hr1 hsa0 (by show e'.s.established = true; rw [he', f1]; exact h.est) hp' (by intro h; cases h)⟩
         refine ⟨⟨h.pre.gA, ?_, h.pre.txA, ht', h.pre.aTx, h.pre.rsA, h.pre.rsB, h.pre.fA, h.pre.fB⟩,
           h.sa, h.qab, by simp only [h.qba]; rfl, h.par, ?_, hp', ?_, ?_, ?_, ?_, ?_⟩
         · show e'.gattMtu = gb
@@ -523,7 +566,7 @@ theorem phase_step {ra rb : Bool} {ga gb : Option Nat} {l : LMon} (hl : LInv l) 
           simp only [LMon.step, LMon.inq, h.qba, LMon.get, Mon.step, hin]
           simp only [respBytes, ghostRx_hs]
           rfl
-        refine ⟨_, _, hstep, .sync ?_⟩
+        refine ⟨_, _, hstep, .sync ?_, hsAdv_zero _ rfl⟩
         refine sync_mk .a ?_ hW ⟨rfl, rfl, rfl⟩ ⟨h.est, h.w, h.m⟩ ?_ ?_ ?_
         · intro x
           cases x
@@ -563,11 +606,23 @@ theorem phase_step {ra rb : Bool} {ga gb : Option Nat} {l : LMon} (hl : LInv l) 
             cases x
             · exact absurd rfl hop2
             · simp only [IdleOp, LMon.inq, h.qab]
+        · rw [hr1]; exact hop2
         · intro l' c
           exact .p3 dq (h.core c)
   | sync h =>
     rcases sync_step hl h op with ⟨l', o, h1, h2⟩ | h'
-    · exact .inl ⟨l', o, h1, .sync h2⟩
+    · exact .inl ⟨l', o, h1, .sync h2, hsAdv_zero _ (h2.ses .a).1⟩
     · exact .inr h'
+
+/-- **the step theorem of the handshake**: from every state of the link reachable from two fresh
+ends no scheduler operation fails (except `send` refusing an empty / over-long message) and the
+phase invariant is preserved -/
+theorem phase_step {ra rb : Bool} {ga gb : Option Nat} {l : LMon} (hl : LInv l) (hp : Phase ra rb ga gb l)
+    (op : Op) :
+    (∃ l' o, l.step op = .ok (l', o) ∧ Phase ra rb ga gb l') ∨
+    (l.step op = .error .invalidArgument ∧ ∃ x m, op = .send x m) := by
+  rcases phase_step_adv hl hp op with ⟨l', o, h1, h2, _⟩ | h
+  · exact .inl ⟨l', o, h1, h2⟩
+  · exact .inr h
 
 end Btp
